@@ -205,10 +205,10 @@ theorem findPivot_lower (mat : Mat) (start : Nat) :
     start ≤ (findPivot mat start).1 ∧ start ≤ (findPivot mat start).2 := by
   unfold findPivot
   simp only
-  apply foldl_preserves (fun (st : Nat × Nat × Int) => start ≤ st.1 ∧ start ≤ st.2.1) _
+  apply foldl_preserves (fun (st : Nat × Nat × Option Int) => start ≤ st.1 ∧ start ≤ st.2.1) _
     (fun r => start ≤ r) _ _ _ _ ⟨Nat.le_refl _, Nat.le_refl _⟩
   · intro st r hr hst
-    apply foldl_preserves (fun (st : Nat × Nat × Int) => start ≤ st.1 ∧ start ≤ st.2.1) _
+    apply foldl_preserves (fun (st : Nat × Nat × Option Int) => start ≤ st.1 ∧ start ≤ st.2.1) _
       (fun c => start ≤ c) _ _ _ st hst
     · intro st c hc hst
       unfold pivotStep
